@@ -166,3 +166,54 @@ func Verif_C05_results_end_conditions() {
 	cancel()
 	verifapi.Quiesce()
 }
+
+// Verif_C05_results_command_offset: the "work results" COMMAND (real InitFromJSON + ControlFunc, not
+// GetResults alone) for a unit that is still running: 3 bytes of output are stored, the recorded size
+// lags behind (0..3, as it does between two refreshes by the runner), the client asks for the rest from
+// any offset 0..3 - e.g. a follower that lost its connection and re-asks from what it already has. Then
+// two more bytes arrive and the unit finishes. The client receives exactly output[offset:].
+func Verif_C05_results_command_offset() {
+	dir := verifapi.TempDir()
+	wk := verifWorkceptor(dir)
+	verifapi.Assert("register", wk.w.RegisterWorker("cmd", verifCmdCfg().NewWorker, false) == nil)
+	verifapi.FixRandom("unit0013")
+	unit, err := wk.w.AllocateUnit("cmd", map[string]string{})
+	verifapi.Assert("allocated", err == nil)
+	out := unit.StdoutFileName()
+	first, rest := verifapi.Bytes(3), verifapi.Bytes(2)
+	verifAppend(out, first)
+	recorded := verifapi.Choose(4)
+	unit.UpdateBasicStatus(WorkStateRunning, "running", int64(recorded))
+	start := verifapi.Choose(4)
+	cfo := verifNewCFO("unix")
+	done := make(chan error, 1)
+	go func() {
+		_, cerr := wk.verifCommand(cfo, map[string]interface{}{"command": "work", "subcommand": "results", "unitid": unit.ID(), "startpos": float64(start)})
+		done <- cerr
+	}()
+	pump := func() {
+		for i := 0; i < 3; i++ {
+			verifapi.Quiesce()
+			verifapi.AdvanceTime(300 * time.Millisecond)
+		}
+		verifapi.Quiesce()
+	}
+	pump()
+	verifAppend(out, rest)
+	unit.UpdateBasicStatus(WorkStateSucceeded, "done", int64(5))
+	pump()
+	pump()
+	var cerr error
+	finished := false
+	select {
+	case cerr = <-done:
+		finished = true
+	default:
+	}
+	verifapi.Cover("results-command-returned")
+	verifapi.Assert("results-command-ends-once-the-unit-is-finished", finished && cerr == nil)
+	all := append(append([]byte{}, first...), rest...)
+	verifapi.Assert("client-receives-exactly-the-output-from-its-offset", verifapi.SameBytes(*cfo.streamed, all[start:]))
+	wk.cancel()
+	verifapi.Quiesce()
+}
